@@ -93,7 +93,16 @@ func runC28(c *core.Ctx) {
 	begin := c.MustFn("C28.cap", "(*coreV2/minter.Blockchain).BeginBlock")
 	end := c.MustFn("C28.cap", "(*coreV2/minter.Blockchain).EndBlock")
 	if begin != nil {
-		checkBeginReward(c, begin)
+		// the block that prices the reward may live in a helper that only BeginBlock calls
+		target := begin
+		for _, h := range c.Helpers(begin) {
+			for _, s := range core.Sites(h) {
+				if methodName(s) == "SetReward" {
+					target = h
+				}
+			}
+		}
+		checkBeginReward(c, target)
 	}
 	if end != nil {
 		checkEndMint(c, end)
@@ -174,11 +183,11 @@ func checkBeginReward(c *core.Ctx, fn *ssa.Function) {
 				switch {
 				case x.Op == token.EQL && truth && k == 1 && isRemOfHeight(x.X):
 					mod1 = true
-				case isHeaderHour(x.X) && x.Op == token.GEQ && truth && k == 12, isHeaderHour(x.X) && x.Op == token.GTR && truth && k == 11, isHeaderHour(x.X) && x.Op == token.LSS && !truth && k == 12:
+				case isHeaderHour(c, x.X) && x.Op == token.GEQ && truth && k == 12, isHeaderHour(c, x.X) && x.Op == token.GTR && truth && k == 11, isHeaderHour(c, x.X) && x.Op == token.LSS && !truth && k == 12:
 					h12 = true
-				case isHeaderHour(x.X) && x.Op == token.LEQ && truth && k == 14, isHeaderHour(x.X) && x.Op == token.LSS && truth && k == 15, isHeaderHour(x.X) && x.Op == token.GTR && !truth && k == 14:
+				case isHeaderHour(c, x.X) && x.Op == token.LEQ && truth && k == 14, isHeaderHour(c, x.X) && x.Op == token.LSS && truth && k == 15, isHeaderHour(c, x.X) && x.Op == token.GTR && !truth && k == 14:
 					h14 = true
-				case x.Op == token.GTR && truth && k == 3*3600*1e9 && isHeaderSub(x.X):
+				case x.Op == token.GTR && truth && k == 3*3600*1e9 && isHeaderSub(c, x.X):
 					gap = true
 				}
 			case *ssa.Call:
@@ -201,17 +210,34 @@ func isRemOfHeight(v ssa.Value) bool {
 	return ok && bin.Op == token.REM && strings.HasSuffix(core.Path(bin.Y), ".updateStakesAndPayRewardsPeriod")
 }
 
-func isHeaderHour(v ssa.Value) bool {
-	call, ok := core.Unwrap(v).(*ssa.Call)
-	return ok && core.CalleeName(&call.Call) == "(time.Time).Hour" && strings.Contains(core.Path(call.Call.Args[0]), "req.Header.Time")
+// isHeaderTime: v is the Header.Time of the RequestBeginBlock being processed, read in place or
+// handed down to a helper as an argument.
+func isHeaderTime(c *core.Ctx, v ssa.Value) bool {
+	v = c.CallerArg(v)
+	if !strings.HasSuffix(core.Path(v), ".Header.Time") {
+		return false
+	}
+	return core.DependsOn(v, func(o ssa.Value) bool {
+		p, ok := o.(*ssa.Parameter)
+		if !ok {
+			return false
+		}
+		n := namedOf(p.Type())
+		return n != nil && n.Obj().Name() == "RequestBeginBlock"
+	})
 }
 
-func isHeaderSub(v ssa.Value) bool {
+func isHeaderHour(c *core.Ctx, v ssa.Value) bool {
+	call, ok := core.Unwrap(v).(*ssa.Call)
+	return ok && core.CalleeName(&call.Call) == "(time.Time).Hour" && isHeaderTime(c, call.Call.Args[0])
+}
+
+func isHeaderSub(c *core.Ctx, v ssa.Value) bool {
 	call, ok := core.Unwrap(v).(*ssa.Call)
 	if !ok || core.CalleeName(&call.Call) != "(time.Time).Sub" {
 		return false
 	}
-	if !strings.Contains(core.Path(call.Call.Args[0]), "req.Header.Time") {
+	if !isHeaderTime(c, call.Call.Args[0]) {
 		return false
 	}
 	// the subtrahend is the first result of GetPrice()
